@@ -225,15 +225,17 @@ class OrfSequences(Contract):
         zz = lambda i: i if is_z3(i) else z3.IntVal(i)
         st.frames = {}
 
-        def frame(r):
-            # translation of tx[r:]: (L - r) // 3 residues (r in 0..2, so L - r may be negative only for L < r: then empty)
-            if r not in st.frames:
-                n = z3.If(st.L - r >= 0, (st.L - r) / 3, 0)
+        def frame(r, hi=None):
+            # translation of tx[r:hi] (hi: the transcript end unless given): (hi - r) // 3 residues (r in 0..2; empty when hi < r)
+            key = (r, None if hi is None else z3.simplify(zz(hi)).sexpr())
+            if key not in st.frames:
+                end = st.L if hi is None else z3.If(zz(hi) < 0, z3.If(st.L + zz(hi) < 0, 0, st.L + zz(hi)), z3.If(zz(hi) > st.L, st.L, zz(hi)))
+                n = z3.If(end - r >= 0, (end - r) / 3, 0)
                 ln = e.int(f'frame{r}_len')
                 e.assume(ln == n)
                 tr = PStr(ln, lambda q, r=r: AA(st.tx.get(r + 3 * zz(q)), st.tx.get(r + 3 * zz(q) + 1), st.tx.get(r + 3 * zz(q) + 2)), tag=f'frame{r}')
-                st.frames[r] = SymObj('AARec', seq=tr, frame=r, id=None, name=None, description=None)
-            return st.frames[r]
+                st.frames[key] = SymObj('AARec', seq=tr, frame=r, id=None, name=None, description=None)
+            return st.frames[key]
         st.frame = frame
         st.has_orf = e.bool('tx_has_known_orf')
         st.exclude = e.bool('exclude_canonical_orf')
@@ -259,11 +261,13 @@ class OrfSequences(Contract):
             install_find(reg)
 
             def tx_slice(I, o, lo, hi):
-                if hi is not None or not isinstance(lo, int) or not 0 <= lo <= 2:
-                    raise Unsupported('transcript slice other than [0:], [1:], [2:]')
-                return SymObj('TxSuffix', r=lo)
+                lo = 0 if lo is None else lo
+                if not isinstance(lo, int) or not 0 <= lo <= 2 or not (hi is None or is_sym_int(hi) or isinstance(hi, int)):
+                    raise Unsupported('transcript slice other than [r:] / [r:end] with r in 0..2')
+                return SymObj('TxSuffix', r=lo, hi=hi)
             reg.protocol_('TxRec', '__getslice__', tx_slice)
-            reg.method_('TxSuffix', 'translate', lambda I, o, a, k: c._cur.frame(o.fields['r']))
+            reg.protocol_('TxRec', '__len__', lambda I, o: c._cur.L)
+            reg.method_('TxSuffix', 'translate', lambda I, o, a, k: c._cur.frame(o.fields['r'], o.fields['hi']))
 
             def aa_slice(I, o, lo, hi):
                 return SymObj('AARec', seq=I.getitem(o.fields['seq'], SymObj('slice', start=lo, stop=hi, step=None)), frame=o.fields['frame'], id=None, name=None,
